@@ -124,39 +124,53 @@ def k2(F, res):
         return
     w = max(ws, key=lambda x: len(x.trace))
     tr = [e for e in w.trace if e['kind'] == 'call']
-    order = []
-    pending = None
     lists_sorted = sum(1 for e in tr if 'sort' in e['callee'] and not e['loops'])
-    for i, e in enumerate(tr):
-        n = e['callee'].split('::')[-1]
-        owner = e['callee'].split('::')[-2]
-        if owner == 'NameMap' and n == 'append' and len(e['loops']) == 1:
-            pending = e
-        if owner == 'NameSection' and n in EMIT_KINDS:
-            idxfn, coll = EMIT_KINDS[n]
-            order.append(n)
-            if pending is None:
-                res.bad('emit/%s/entries' % n, 'the %s name map is appended without entries' % n)
-                continue
-            idx, name = show(pending['args'][1]), show(pending['args'][2])
-            src = show(pending['loops'][-1])
-            good = idx.startswith('%s(cx.indices, ' % idxfn) and ('cx.module.%s.' % coll) in idx and idx.endswith('.id)') \
-                and ('cx.module.%s.' % coll) in name and name.endswith('.name!') \
-                and idx[len(idxfn) + 13:-4] == name[:-6] and ('cx.module.%s.' % coll) in src
-            if good:
-                res.ok('emit/' + n, {'subsection': n, 'index': idxfn, 'collection': coll})
-            else:
-                res.bad('emit/' + n, 'entries of the `%s` name subsection must be (%s(item.id), item.name) over module.%s; got (%s, %s)'
-                        % (n, idxfn, coll, idx[:80], name[:60]))
-            pending = None
-        if owner == 'NameSection' and n == 'locals':
-            order.append(n)
-        if owner == 'NameSection' and n == 'module':
-            order.append(n)
-            if show(e['args'][1]) == 'cx.module.name!':
-                res.ok('emit/module', {'subsection': 'module', 'name': 'module.name'})
-            else:
-                res.bad('emit/module', 'the module name subsection carries %s' % show(e['args'][1]))
+    verdict = {}      # key -> message of the first world in which it fails, or None
+
+    def scan(wx):
+        """per-kind subsections of one world; returns the order in which subsections are appended"""
+        order = []
+        pending = None
+        for e in [x for x in wx.trace if x['kind'] == 'call']:
+            n = e['callee'].split('::')[-1]
+            owner = e['callee'].split('::')[-2]
+            if owner == 'NameMap' and n == 'append' and len(e['loops']) == 1:
+                pending = e
+            if owner == 'NameSection' and n in EMIT_KINDS:
+                idxfn, coll = EMIT_KINDS[n]
+                order.append(n)
+                if pending is None:
+                    verdict['emit/%s/entries' % n] = 'the %s name map is appended without entries' % n
+                    continue
+                idx, name = show(pending['args'][1]), show(pending['args'][2])
+                src = show(pending['loops'][-1])
+                good = idx.startswith('%s(cx.indices, ' % idxfn) and ('cx.module.%s.' % coll) in idx and idx.endswith('.id)') \
+                    and ('cx.module.%s.' % coll) in name and name.endswith('.name!') \
+                    and idx[len(idxfn) + 13:-4] == name[:-6] and ('cx.module.%s.' % coll) in src
+                if good:
+                    verdict.setdefault('emit/' + n, None)
+                else:
+                    verdict['emit/' + n] = 'entries of the `%s` name subsection must be (%s(item.id), item.name) over module.%s; got (%s, %s)' \
+                        % (n, idxfn, coll, idx[:80], name[:60])
+                pending = None
+            if owner == 'NameSection' and n == 'locals':
+                order.append(n)
+            if owner == 'NameSection' and n == 'module':
+                order.append(n)
+                if show(e['args'][1]) == 'cx.module.name!':
+                    verdict.setdefault('emit/module', None)
+                else:
+                    verdict['emit/module'] = 'the module name subsection carries %s' % show(e['args'][1])[:120]
+        return order
+    order = scan(w)
+    for wx in ws:
+        if wx is not w:
+            scan(wx)
+    for key in sorted(verdict):
+        if verdict[key] is None:
+            res.ok(key, {'subsection': key.split('/')[1], 'entries': '(index of item.id, item.name) over its own collection'})
+        else:
+            res.bad(key, verdict[key])
     # locals
     la = [e for e in tr if e['callee'].endswith('NameMap::append') and len(e['loops']) == 2]
     ia = [e for e in tr if e['callee'].endswith('IndirectNameMap::append')]
